@@ -2506,6 +2506,217 @@ def handle_history(chk, runner, scn, record=True):
     return res
 
 
+# ------------------------------------------------------------------------------------------------
+# wave 9: the verdict of Processor.add(mapping, component) in closed form, left post-selection included
+# (Model/C10Verdict.lean: compVerdict; Props: add_component_closed)
+# ------------------------------------------------------------------------------------------------
+VERDICT_CLASSES = ("ok", "InvalidMappingException", "UnavailableModeException", "AssertionError")
+
+
+def verdict_component(m, kind):
+    import perceval as pcvl
+    from perceval.components import BS, PS, PERM
+    if kind == "leaf":
+        return {1: lambda: PS(0.3), 2: lambda: BS.H(), 3: lambda: PERM([1, 2, 0])}[m]()
+    c = pcvl.Circuit(m)
+    c.add(0, PS(0.25))
+    if m >= 2:
+        c.add(m - 2, BS())
+    return c
+
+
+def gen_verdict(rng):
+    cs = rng.randint(2, 6)
+    modes = list(range(cs))
+    heralds = []
+    if rng.random() < 0.45:
+        heralds = [[k, rng.randint(0, 1)] for k in sorted(rng.sample(modes, rng.randint(1, min(2, cs - 1))))]
+    hm = {h[0] for h in heralds}
+    free = [k for k in modes if k not in hm]
+    dets = []
+    if len(free) >= 2 and rng.random() < 0.3:
+        dets = [rng.choice(free)]
+    m = min(rng.choice([1, 1, 2, 2, 2, 3]), cs)
+    if rng.random() < 0.5:
+        b = rng.randint(-1, cs - m + 1) if rng.random() < 0.25 else rng.randint(0, cs - m)
+        ms = {"form": "int", "v": b}
+        keys = list(range(b, b + m))
+    else:
+        pool = [k for k in free if k not in dets]
+        keys = rng.sample(pool, m) if (len(pool) >= m and rng.random() < 0.6) else rng.sample(modes, m)
+        r = rng.random()
+        if r < 0.12:
+            keys = keys[:-1] if (len(keys) > 1 and rng.random() < 0.5) else keys + [rng.choice(modes)]
+        elif r < 0.24 and len(keys) >= 2:
+            keys[rng.randrange(len(keys))] = keys[0] if rng.random() < 0.5 else keys[-1]
+        elif r < 0.34:
+            keys[rng.randrange(len(keys))] = rng.choice([-1, cs, cs + 1])
+        ms = {"form": rng.choice(["list", "list", "tuple"]), "v": keys}
+    ps = None
+    r = rng.random()
+    inside = sorted({k for k in keys if 0 <= k < cs})
+    if r < 0.3 and inside:
+        # a condition on exactly the mapped modes (composable), possibly next to one on other modes
+        ps = ["c", inside, rng.choice(["==", ">", "<", ">=", "<="]), rng.randint(0, 2)]
+        others = [k for k in free if k not in inside]
+        if others and rng.random() < 0.6:
+            ps = [rng.choice(["&", "|", "^"]), ps, gen_ps(rng, others, 1)]
+        if rng.random() < 0.2:
+            ps = ["!", ps]
+    elif r < 0.5 and inside and len(modes) > len(inside):
+        # a condition on the mapped modes and one more
+        extra = rng.choice([k for k in modes if k not in inside])
+        ps = ["c", sorted(inside + [extra]), rng.choice(["==", ">=", "<"]), rng.randint(0, 2)]
+    elif r < 0.85:
+        ps = gen_ps(rng, free, 2)
+    return {"verdict": {"cs": cs, "heralds": heralds, "dets": dets, "ps": ps, "m": m,
+                        "kind": rng.choice(["leaf", "circ"]), "map": ms, "keep_port": rng.random() < 0.7}}
+
+
+def verdict_expected(v):
+    """the verdict the property statement and the documentation of Processor.add give, from the scenario alone:
+    wrong size / repeated mode -> InvalidMappingException; a mode outside the processor, heralded or ending in a detector
+    -> UnavailableModeException; a left post-selection with a condition that contains some but not all of the mapped modes
+    -> AssertionError (the documented can_compose_with refusal); otherwise accepted"""
+    cs, m, ms = v["cs"], v["m"], v["map"]
+    keys = list(range(ms["v"], ms["v"] + m)) if ms["form"] == "int" else list(ms["v"])
+    if len(keys) != m or len(set(keys)) != len(keys):
+        return "InvalidMappingException", keys
+    reserved = {h[0] for h in v["heralds"]} | set(v["dets"])
+    if any(k < 0 or k >= cs or k in reserved for k in keys):
+        return "UnavailableModeException", keys
+    if v["ps"] is not None:
+        for c in ps_conds(v["ps"]):
+            n_in = sum(1 for k in keys if k in c)
+            if 0 < n_in < len(keys):
+                return "AssertionError", keys
+    return "ok", keys
+
+
+def verdict_build(v):
+    import perceval as pcvl
+    from perceval.utils import PostSelect
+    p = pcvl.Processor("SLOS", v["cs"])
+    for k, e in v["heralds"]:
+        p.add_herald(k, e)
+    for k in v["dets"]:
+        p.add(k, pcvl.Detector.pnr())
+    if v["ps"] is not None:
+        p.set_postselection(PostSelect(ps_str(v["ps"])))
+    return p
+
+
+def run_verdict(scn, ask, on_event=None):
+    """-> None or (kind, signature, text)"""
+    v = scn["verdict"]
+    ev = on_event or (lambda name: None)
+    p = verdict_build(v)
+    comp = verdict_component(v["m"], v["kind"])
+    L = observe_proc(p)
+    n_before = len(p.components)
+    lps_before = None if v["ps"] is None else str(p.experiment.post_select_fn)
+    try:
+        p.add(py_mapping(v["map"]), comp, keep_port=v["keep_port"])
+        real = "ok"
+    except Exception as e:  # noqa: the class is the observation
+        real = type(e).__name__
+    exp, keys = verdict_expected(v)
+    where = (f"Processor({v['cs']}) heralds {v['heralds']} detectors on {v['dets']} post-selection "
+             f"{None if v['ps'] is None else ps_str(v['ps'])!r}; add({py_mapping(v['map'])!r}, {v['m']}-mode component)")
+    ev("verdict-" + v["map"]["form"].replace("tuple", "list"))
+    ev("verdict-expected-" + exp)
+    if v["ps"] is None:
+        ev("verdict-no-ps")
+    elif exp == "ok" and len(keys) >= 2 and any(all(k in c for k in keys) for c in ps_conds(v["ps"])):
+        ev("verdict-ps-contains-all")
+    elif exp in ("InvalidMappingException", "UnavailableModeException") and \
+            any(0 < sum(1 for k in keys if k in c) < len(keys) for c in ps_conds(v["ps"])):
+        ev("verdict-mapping-error-before-assertion")
+    # judged directly on the real code
+    if exp in ("InvalidMappingException", "UnavailableModeException") and real == "ok":
+        return ("violation", "illegal-mapping-accepted", f"{where}: the mapping is illegal ({exp}) but the add is accepted")
+    if exp == "ok" and real != "ok":
+        return ("violation", "legal-mapping-refused", f"{where}: a legal mapping onto available modes, no condition of the "
+                                                      f"post-selection straddling it, is refused with {real}")
+    if real != "ok":
+        o2 = observe_proc(p)
+        if len(p.components) != n_before or o2["heralds"] != L["heralds"] or o2["dets"] != L["dets"] or \
+                (lps_before is not None and str(p.experiment.post_select_fn) != lps_before):
+            return ("violation", "refused-add-changed-processor", f"{where}: refused with {real} but the processor changed")
+    side_l = {"comp": False, "m": L["m"], "cs": L["cs"], "conn": L["avail"], "heralds": L["heralds"], "dets": L["dets"],
+              "outp": L["outp"], "inp": L["inp"], "out_names": L["raw_out_names"] or [],
+              "in_names": L["raw_in_names"] or [], "ps": v["ps"]}
+    side_r = {"comp": True, "m": comp.m, "cs": comp.m, "conn": [], "heralds": [], "dets": [], "outp": [], "inp": [],
+              "out_names": [], "in_names": [], "ps": None}
+    rep = ask({"op": "verdict", "left": side_l, "right": side_r, "map": v["map"], "keep_port": v["keep_port"]})
+    if "err" in rep:
+        return ("broken", "verdict-driver", f"{where}: driver says {rep}")
+    if rep["closed"] != rep["chain"]:
+        return ("broken", "verdict-closed-vs-chain", f"{where}: closed form {rep['closed']} but the modelled chain gives "
+                                                     f"{rep['chain']} (contradicts add_component_closed)")
+    if L["conn"] != L["avail"]:
+        return ("broken", "verdict-availability-flag", f"{where}: is_mode_connectible {L['conn']} disagrees with the "
+                                                       f"heralds/detectors lists {L['avail']}")
+    if rep["closed"] != real or exp != real:
+        return ("broken", "verdict-class", f"{where}: the real add ends in {real}, the model's closed form says "
+                                           f"{rep['closed']}, the documented reading says {exp}")
+    return None
+
+
+def shrink_verdict(scn, fails):
+    cur = copy.deepcopy(scn)
+    changed = True
+    while changed:
+        changed = False
+        v = cur["verdict"]
+        cands = []
+        for i in range(len(v["heralds"])):
+            c = copy.deepcopy(cur); del c["verdict"]["heralds"][i]; cands.append(c)
+        for i in range(len(v["dets"])):
+            c = copy.deepcopy(cur); del c["verdict"]["dets"][i]; cands.append(c)
+        if v["ps"] is not None:
+            c = copy.deepcopy(cur); c["verdict"]["ps"] = None; cands.append(c)
+            if v["ps"][0] != "c":
+                for sub in v["ps"][1:]:
+                    c = copy.deepcopy(cur); c["verdict"]["ps"] = sub; cands.append(c)
+        if v["kind"] != "leaf":
+            c = copy.deepcopy(cur); c["verdict"]["kind"] = "leaf"; cands.append(c)
+        for c in cands:
+            try:
+                if fails(c):
+                    cur, changed = c, True
+                    break
+            except Exception:  # noqa: a candidate that cannot be built is not a smaller case
+                continue
+    return cur
+
+
+def handle_verdict(chk, runner, scn, record=True):
+    def ev(name):
+        if record:
+            chk.branch(name)
+    res = run_verdict(scn, runner.ask, ev)
+    v = scn["verdict"]
+    if record:
+        keys = verdict_expected(v)[1]
+        chk.case(f"verdict|{v['cs']}|{len(v['heralds'])}|{len(v['dets'])}|{v['ps'] is not None}|{v['map']['form']}|{keys}",
+                 nontrivial=v["ps"] is not None and len(keys) >= 2, sample={"verdict": verdict_expected(v)[0]})
+    if res is not None:
+        kind, sig, what = res
+        if [kind, sig] in runner.shrunk:
+            chk.fail(kind, sig, what, {"scenario": scn})
+            return res
+        runner.shrunk.append([kind, sig])
+
+        def fails(c):
+            r = run_verdict(c, runner.ask)
+            return r is not None and r[1] == sig
+        small = shrink_verdict(scn, fails)
+        r2 = run_verdict(small, runner.ask)
+        chk.fail(kind, sig, (r2[2] if r2 is not None and r2[1] == sig else what), {"scenario": small})
+    return res
+
+
 def load_corpus():
     out = []
     for path in sorted(glob.glob(os.path.join(core.VERIF, "corpus", "C10", "*.json"))):
@@ -2592,12 +2803,15 @@ def run(chk: core.Check):
                              "hist-error-UnavailableModeException", "hist-error-IndexError"] + \
                             ["add-hist", "add-hist-keeps", "add-hist-herald-out-removed", "add-hist-accepted",
                              "add-hist-heralds", "rightwf-true", "rightwf-false",
-                             "right-life", "right-life-heralds", "right-life-heralds-accepted"]
+                             "right-life", "right-life-heralds", "right-life-heralds-accepted"] + \
+                            ["verdict-int", "verdict-list", "verdict-no-ps", "verdict-ps-contains-all",
+                             "verdict-mapping-error-before-assertion"] + \
+                            ["verdict-expected-" + c for c in VERDICT_CLASSES]
     chk.lean = core.LeanDriver("C10")
     runner = Runner(chk)
     rng = chk.rng
     for name, scn, expect in load_corpus():
-        res = handle(chk, runner, scn)
+        res = handle_verdict(chk, runner, scn) if "verdict" in scn else handle(chk, runner, scn)
         chk.count("corpus", name)
     n_ex = 0
     for scn in exhaustive_scenarios(rng, 4):
@@ -2689,6 +2903,14 @@ def run(chk: core.Check):
             chk.count("generator", "invalid-construction")
 
 
+    # wave 9: the verdict of the add of a bare component on processors with heralds, detectors and a post-selection,
+    # against the closed form compVerdict (add_component_closed) and the documented reading
+    n_v = chk.pick(400, 4000)
+    for i in range(n_v):
+        handle_verdict(chk, runner, gen_verdict(rng))
+        chk.count("generator", "verdict-family")
+
+
 class GenInvalid(Exception):
     pass
 
@@ -2697,4 +2919,7 @@ def replay(chk, data):
     chk.lean = core.LeanDriver("C10")
     chk.rule = "replay of one stored scenario"
     runner = Runner(chk)
+    if "verdict" in data["replay"]["scenario"]:
+        handle_verdict(chk, runner, data["replay"]["scenario"])
+        return
     handle(chk, runner, data["replay"]["scenario"])
